@@ -559,10 +559,33 @@ def enclosing_if(node):
 
 def path_condition(node):
     """the tests that hold where `node` stands: [(test ast, polarity)] for every enclosing if/elif/else and while"""
+    from . import flow as _flow
     out = []
     cur = node
     par = getattr(cur, '_parent', None)
-    while par is not None and not isinstance(par, (ast.FunctionDef, ast.AsyncFunctionDef, ast.Lambda)):
+
+    def earlier_siblings(par, cur):
+        # guard clauses: an earlier `if t: <always leaves>` in the same block means `not t` holds from there on
+        for f in ('body', 'orelse', 'finalbody'):
+            blk = getattr(par, f, None)
+            if isinstance(blk, list) and any(cur is x for x in blk):
+                for sib in blk:
+                    if sib is cur:
+                        break
+                    if isinstance(sib, ast.If):
+                        if _flow.always_exits(sib.body, ['err_raiser']) and not sib.orelse:
+                            out.append((sib.test, False))
+                        elif sib.orelse and _flow.always_exits(sib.orelse, ['err_raiser']) and not _flow.always_exits(sib.body, ['err_raiser']):
+                            out.append((sib.test, True))
+                        elif sib.orelse and _flow.always_exits(sib.body, ['err_raiser']) and not _flow.always_exits(sib.orelse, ['err_raiser']):
+                            out.append((sib.test, False))
+                    elif isinstance(sib, ast.Assert):
+                        out.append((sib.test, True))
+    while par is not None and not isinstance(par, (ast.Lambda,)):
+        if isinstance(cur, ast.stmt):
+            earlier_siblings(par, cur)
+        if isinstance(par, (ast.FunctionDef, ast.AsyncFunctionDef)):
+            break
         if isinstance(par, ast.If):
             if any(cur is x for x in par.body):
                 out.append((par.test, True))
